@@ -113,6 +113,10 @@ S_TEMPLATES = [
     ("for-break", "int g@; int f@(int a,int b){ int x=0,y=1; for(int i=0;i<5;i++){ if(i==(a&7)) break; %B } return x*7+y+g@; }"),
     ("for-continue", "int g@; int f@(int a,int b){ int x=0,y=1; for(int i=0;i<5;i++){ if(i==(a&3)) continue; %B } return x*7+y+g@; }"),
     ("while-continue", "int g@; int f@(int a,int b){ int x=0,y=1; int n=4; while(n-->0){ if(n==(a&3)) continue; %B } return x*7+y+g@; }"),
+    ("do-continue", "int g@; int f@(int a,int b){ int x=0,y=1; int n=(a&3)+1; do { n--; if(n==(b&3)) continue; %B } while(n>0); return x*7+y+g@; }"),
+    ("do-continue-once", "int g@; int f@(int a,int b){ int x=0,y=1; do { x++; if(x<(a&7)) continue; %B } while(0); return x*7+y+g@; }"),
+    ("while-break-nested", "int g@; int f@(int a,int b){ int x=0,y=1; int n=4; while(n>0){ int m=3; n--; while(m>0){ m--; if(m==(a&3)) break; if(n==(b&3)) continue; %B } } return x*7+y+g@; }"),
+    ("switch-in-loop-continue", "int g@; int f@(int a,int b){ int x=0,y=1; for(int i=0;i<4;i++){ switch((a+i)&3){ case 0: continue; case 1: %B break; default: y+=i; } x+=3; } return x*7+y+g@; }"),
     ("switch", "int g@; int f@(int a,int b){ int x=0,y=1; switch(a&3){ case 0: %B break; case 1: %C case 2: x+=100; break; default: y=-y; } return x*7+y+g@; }"),
     ("switch-nodefault", "int g@; int f@(int a,int b){ int x=0,y=1; switch(a){ case -1: %B break; case 2147483647: %C break; case 0: x=9; } return x*7+y+g@; }"),
     ("goto-fwd", "int g@; int f@(int a,int b){ int x=0,y=1; if(a>b) goto skip; %B skip: %C return x*7+y+g@; }"),
@@ -168,6 +172,10 @@ def aggregates(types=INT_TYPES):
     yield case("int f@(int a,int b){ int t[4]={1,2}; int u[]={a,b,a+b}; return t[0]+t[1]+t[2]+t[3]+u[2]+(int)(sizeof(u)/sizeof(u[0])); }", "int", ["int", "int"], "A", "array-init")
     yield case("struct S@ {int a; char b; long c;}; int f@(int a,int b){ struct S@ s = {5}; int u[5] = {[3]=7}; return s.a+s.b+(int)s.c+u[0]+u[3]+u[4]+a; }", "int", ["int", "int"], "A", "partial-init")
     yield case("union U@ {char c[5]; int i;}; unsigned long f@(int a){ return sizeof(union U@); }", "unsigned long", ["int"], "A", "sizeof-union-tail-padding")
+    yield case("int t@[4]; int k@; int nx@(void){ return k@++ & 3; } int f@(int a,int b){ k@=a&3; t@[nx@()]++; t@[nx@()]--; ++t@[nx@()]; t@[k@++ & 3] += 5; return t@[0]+2*t@[1]+3*t@[2]+4*t@[3]+100*k@; }", "int", ["int", "int"], "A", "incdec-side-effect-lvalue", globals_=["t@"], restore=["k@"])
+    yield case("int f@(int a,int b){ int t[4]={0,0,0,0}; int i=a&1; t[i++]++; t[i++]+=2; return t[0]+10*t[1]+100*t[2]+1000*t[3]+10000*i; }", "int", ["int", "int"], "A", "incdec-nested")
+    yield case("long long f@(int a,int b){ return (a < 2147483647) + 2*(a / 2147483647) + 4*((-2147483647 - 1) < a) + 8*(a % 0x7fffffff == a) + 16*(long long)(-2147483647 - 1); }", "long long", ["int", "int"], "A", "literal-int-max")
+    yield case("long long f@(int a,int b){ return (a < 4294967295) + 2*(a < 2147483648) + 4*(a < 0xffffffff) + 8*(a < 0x80000000) + 16*(a < 9223372036854775807) + 32*(sizeof(2147483648) == 8) + 64*(sizeof(0x80000000) == 4); }", "long long", ["int", "int"], "A", "literal-types")
     yield case("typedef int (*fp@)(int); int inc@(int x){return x+1;} int dbl@(int x){return x*2;} int f@(int a,int b){ fp@ t[2]={inc@,dbl@}; return t[a&1](b&255); }",
                "int", ["int", "int"], "A", "function-pointer-table")
 
